@@ -193,6 +193,20 @@ def _job(idx: int) -> List[Dict[str, Any]]:
         inst("R7.5", "VIOLATED", norm_text(ev.node, 90), "the gamma callback's value reaches the mu update: it depends on team i alone, so the exchange cannot be antisymmetric (mu is created or destroyed)", {}, m, fn, ln)
     else:
         inst("R7.5", "HOLDS", "the callback value flows into the variance step only", "", {"omega_accumulators": sorted(omega_tags), "delta_accumulators": sorted(delta_tags)})
+    # ---- R7.6 mu is changed by the exchange only: no store to a passed rating's mu outside the kernel (e.g. in the cap)
+    try:
+        oc2 = run_op(prog, roles, "rate", ranks="list-of-int", tau="any", limit_sigma="truthy")
+        stray = [ev for ev in oc2.I.events if ev.kind == "write" and ev.data["origin"] == "input:player" and ev.data["field"] == "mu" and "_compute" not in ev.func]
+        if oc2.undecided:
+            inst("R7.6", "UNDECIDED", "mu is stored by the kernel only", "; ".join(oc2.undecided[:2]))
+        elif stray:
+            ev = stray[0]
+            m, fn, ln = where(ev)
+            inst("R7.6", "VIOLATED", norm_text(ev.node, 90), "a passed rating's mu is overwritten outside the update kernel (here with limit_sigma in force): the player loses or gains mu that no opponent gains or loses", {}, m, fn, ln)
+        else:
+            inst("R7.6", "HOLDS", "mu is stored by the kernel only (also with limit_sigma in force)")
+    except Exception as e:
+        inst("R7.6", "UNDECIDED", "mu is stored by the kernel only", f"{type(e).__name__}: {e}")
     # updated team's head / token
     tgt = mu_writes[0].data["ptr"]
     head_i = tgt.idx[0]
